@@ -70,6 +70,12 @@ func H_C15_args_index() {
 	vResetDecOpts()
 	m := Map(vNondetMap(vSpec{Depth: 3, Width: 1, Kinds: "mls", KeyAlpha: "a", KeyMin: 1, KeyMax: 1, StrAlpha: "x", StrMax: 0}))
 	arg := "a[" + vNondetString(0, 3, "-09]") + "]" + []string{"", ".a", "[0]", ".a[-0]"}[vChoose(4)]
+	if vChoose(3) == 0 {
+		// indexes at the edges of the 32- and 64-bit ranges
+		huge := []string{"2147483647", "2147483648", "4294967295", "4294967296", "9223372036854775807", "9223372036854775808", "-9223372036854775808", "18446744073709551615", "18446744073709551616", "-2147483648", "-2147483649"}
+		arg = "a[" + huge[vChoose(len(huge))] + "]" + []string{"", ".a"}[vChoose(2)]
+		vCover("huge")
+	}
 	if vChoose(4) == 0 {
 		// indexes around the length of a list that is as long as the initial result capacity
 		n := 31 + vChoose(3)
